@@ -850,7 +850,10 @@ def U1(ctx, rule="U1"):
                     inner = strip_refs(de[1])
                     names = [x[2] for x in walk_expr(inner) if x.kind == "downcast"]
                     if names == ["Ready"] and vals == frozenset(["1"]):
-                        g_ok = True
+                        # ... of the poll of the READY receiver (the value the stream yields), not of the done receiver
+                        rs, _ = m.roles_of_sources(sources_of_expr(ctx, cb, inner, mode="taint"), half=1)
+                        if "READY" in rs:
+                            g_ok = True
             ctx.check(g_ok, rule, "countdown-guard|%s" % key, where,
                       "the decrement happens exactly when the poll result is Ready(Some(..)) (a function is yielded)",
                       "the countdown decrement is not guarded by `Ready(Some(..))` of the yielded item")
